@@ -120,7 +120,8 @@ impl Property for C05 {
 
     fn run(&self, t: &mut Tape, ctx: &mut Ctx) -> PResult {
         let regime = if t.p(96) { Regime::General } else { Regime::Dyadic };
-        let cfg = InstCfg::new(regime);
+        let mut cfg = InstCfg::new(regime);
+        cfg.kinds.extend([4, 5]); // semi-integer, semi-continuous: "all variable kinds"
         // drawn before the instance so that short tapes still vary the class
         let class = t.weighted(&[5, 4, 3, 3, 6]);
         let inc = t.coin();
